@@ -52,6 +52,16 @@ def Err.code : Err → Nat
   | .boolean => 6 | .number => 7 | .array => 8 | .keyName => 9 | .keySep => 10 | .valueSep => 11
   | .string => 12 | .comment => 13 | .utf8 => 14 | .size => 15 | .memory => 16
 
+/-- the error codes the state machine itself can raise (`goto out` with `tok->err = …`) -/
+inductive PErr where
+  | depth | unexpected | null | boolean | number | array | keyName | keySep | valueSep | string | comment | utf8
+  deriving Repr, DecidableEq, Inhabited
+
+def PErr.toErr : PErr → Err
+  | .depth => .depth | .unexpected => .unexpected | .null => .null | .boolean => .boolean | .number => .number
+  | .array => .array | .keyName => .keyName | .keySep => .keySep | .valueSep => .valueSep | .string => .string
+  | .comment => .comment | .utf8 => .utf8
+
 /-- struct json_tokener_srec (the `obj` member is unused by the C code) -/
 structure Level where
   state : St
@@ -76,7 +86,8 @@ structure Tok where
   flags : Nat
   deriving Repr, Inhabited
 
-/-- scanner flags of `case json_tokener_state_number` (C locals, re-derived at each entry) -/
+/-- scanner flags of `case json_tokener_state_number` (C locals, re-derived at each entry; the model
+forgets them (`none`) as soon as the number state is left, they are dead from there on) -/
 structure NumLoc where
   isExp : Bool
   negOk : Bool
@@ -86,14 +97,18 @@ structure NumLoc where
 /-- per-call locals -/
 structure Loc where
   num : Option NumLoc := none   -- none: `case number` not entered yet for the pending token in this call
-  obj : JVal := .null           -- the C local `obj` (completed child on its way to the parent)
   nBytes : Nat := 0             -- UTF-8 continuation bytes still expected (VALIDATE_UTF8)
-  deriving Repr
+  deriving Repr, DecidableEq
+/- The third local that matters, `obj` (the completed child on its way to its parent), lives for
+   exactly two `goto redo_char` trips: `case finish` sets it and pops, and the parent, which is always
+   in `array_add` / `object_value_add` (it was put there when the child level was pushed), consumes it
+   at once.  `dFinish` below performs both trips; a parent in any other state is reported as a fault
+   (and proved unreachable), so `obj` never has to be carried. -/
 
 inductive Act where
   | consume (t : Tok) (l : Loc)          -- byte used: ADVANCE_CHAR
   | redo (t : Tok) (l : Loc)             -- goto redo_char
-  | err (e : Err) (t : Tok) (l : Loc)    -- tok->err = e; goto out (byte not consumed)
+  | err (e : PErr) (t : Tok) (l : Loc)   -- tok->err = e; goto out (byte not consumed)
   | done (t : Tok) (l : Loc)             -- state finish at depth 0: goto out (byte not consumed)
   | fault (why : String)                 -- the C code would index out of bounds / shift out of range
   deriving Repr
@@ -246,10 +261,25 @@ def dStart (t : Tok) (l : Loc) (top : Level) (rest : List Level) (c : UInt8) : A
     .redo { setTop t { top with state := .number } rest with pb := [], isDouble := false } { l with num := none }
   else .err .unexpected t l
 
+/-- `case finish` at depth > 0 (obj = current; reset level; depth--; redo) followed by the parent's
+`case array_add` / `case object_value_add` (attach obj; state = eatws; redo) -/
 def dFinish (t : Tok) (l : Loc) (top : Level) (rest : List Level) : Act :=
   match rest with
   | [] => .done t l
-  | _ :: _ => .redo { t with stack := rest } { l with obj := top.current }
+  | parent :: rest' =>
+    match parent.state with
+    | .arrayAdd =>
+      match parent.current with
+      | .arr xs =>
+        .redo { t with stack := { parent with state := .eatws, saved := .arraySep, current := .arr (xs ++ [top.current]) } :: rest' } l
+      | _ => .fault "array_add: current is not an array"
+    | .objectValueAdd =>
+      match parent.current, parent.name with
+      | .obj kvs, some k =>
+        .redo { t with stack := { parent with state := .eatws, saved := .objectSep,
+                                              current := .obj (addOrReplace kvs k top.current), name := none } :: rest' } l
+      | _, _ => .fault "object_value_add: current is not an object or no field name"
+    | _ => .fault "finish: the parent level is not waiting for a child"
 
 def dInf (t : Tok) (l : Loc) (top : Level) (rest : List Level) (c : UInt8) : Act :=
   if t.stPos < infStr.length then
@@ -324,23 +354,27 @@ def dStringEscape (t : Tok) (l : Loc) (top : Level) (rest : List Level) (c : UIn
     .consume { setTop t { top with state := .escapeUnicode } rest with ucs := 0, stPos := 0 } l
   else .err .string t l
 
-/-- a complete \uNNNN unit `u` has been read (the code after the 4-digit loop) -/
-def unicodeUnit (t : Tok) (l : Loc) (top : Level) (rest : List Level) (u : Nat) : Act :=
-  -- If the *previous* sequence was a high surrogate ...
-  let (u, pb) :=
-    if t.hs != 0 then
-      if isLowSurrogate u then (decodePair t.hs u, t.pb) else (u, t.pb ++ replacement)
-    else (u, t.pb)
-  let t := { t with hs := 0, pb := pb, stPos := 0, ucs := u }
-  let back (bs : Bytes) : Act := .consume { setTop t { top with state := top.saved } rest with pb := pb ++ bs } l
+/-- the UTF-8 ladder for the (possibly pair-combined) unit `u`, with `pb` already holding the
+replacement for an unpaired pending high surrogate -/
+def emitUnit (t : Tok) (l : Loc) (top : Level) (rest : List Level) (u : Nat) (pb : Bytes) : Act :=
+  let back (bs : Bytes) : Act :=
+    .consume { setTop t { top with state := top.saved } rest with hs := 0, pb := pb ++ bs, stPos := 0, ucs := u } l
   if u < 0x80 then back (utf8Of u)
   else if u < 0x800 then back (utf8Of u)
   else if isHighSurrogate u then
-    .consume { setTop t { top with state := .needEscape } rest with hs := u, ucs := 0 } l
+    .consume { setTop t { top with state := .needEscape } rest with hs := u, ucs := 0, pb := pb, stPos := 0 } l
   else if isLowSurrogate u then back replacement
   else if u < 0x10000 then back (utf8Of u)
   else if u < 0x110000 then back (utf8Of u)
   else back replacement
+
+/-- a complete \uNNNN unit `u` has been read (the code after the 4-digit loop) -/
+def unicodeUnit (t : Tok) (l : Loc) (top : Level) (rest : List Level) (u : Nat) : Act :=
+  -- If the *previous* sequence was a high surrogate ...
+  if t.hs != 0 then
+    if isLowSurrogate u then emitUnit t l top rest (decodePair t.hs u) t.pb
+    else emitUnit t l top rest u (t.pb ++ replacement)
+  else emitUnit t l top rest u t.pb
 
 def dEscapeUnicode (t : Tok) (l : Loc) (top : Level) (rest : List Level) (c : UInt8) : Act :=
   if c == 0 || !isHex c then .err .string t l
@@ -380,7 +414,7 @@ def trimNum : Bytes → Bytes
     (go pb.reverse).reverse
 
 /-- classification of the saved number text: the block after the scanning loop -/
-def classifyNum (t : Tok) (pb : Bytes) : Except Err JVal :=
+def classifyNum (t : Tok) (pb : Bytes) : Except PErr JVal :=
   let digits := if pb.head? == some 45 then pb.drop 1 else pb
   if t.strict && digits.head? == some 48 && (match digits.drop 1 with | d :: _ => isDigit d | [] => false) then
     .error .number
@@ -399,25 +433,41 @@ def classifyNum (t : Tok) (pb : Bytes) : Except Err JVal :=
     let (bits, used) := lc.strtod pb
     if used == pb.length then .ok (.dbl bits (some pb)) else .error .number
 
-def dNumber (t : Tok) (l : Loc) (top : Level) (rest : List Level) (c : UInt8) : Act :=
-  let nl := match l.num with | some n => n | none => deriveNum t.pb
-  if c != 0 && (isDigit c || (!nl.isExp && (c == 101 || c == 69)) || (nl.negOk && c == 45) ||
-      (nl.posOk && c == 43) || (!t.isDouble && c == 46)) then
-    let (nl', dbl) :=
-      if c == 46 then (({ nl with negOk := true, posOk := true } : NumLoc), true)
-      else if c == 101 || c == 69 then (⟨true, true, true⟩, true)
-      else (({ nl with negOk := false, posOk := false } : NumLoc), t.isDouble)
-    .consume { t with pb := t.pb ++ [c], isDouble := dbl } { l with num := some nl' }
+/-- scanner flags in force: the live locals, or (first dispatch of this call) re-derived from `pb` -/
+def numFlags (t : Tok) (l : Loc) : NumLoc :=
+  match l.num with
+  | some n => n
+  | none => deriveNum t.pb
+
+/-- does the scanning loop accept `c`? -/
+def numAccepts (t : Tok) (nl : NumLoc) (c : UInt8) : Bool :=
+  c != 0 && (isDigit c || (!nl.isExp && (c == 101 || c == 69)) || (nl.negOk && c == 45) ||
+    (nl.posOk && c == 43) || (!t.isDouble && c == 46))
+
+/-- the flags after accepting `c` -/
+def numNext (nl : NumLoc) (c : UInt8) : NumLoc :=
+  if c == 46 then { nl with negOk := true, posOk := true }
+  else if c == 101 || c == 69 then ⟨true, true, true⟩
+  else { nl with negOk := false, posOk := false }
+
+def numDouble (t : Tok) (c : UInt8) : Bool := t.isDouble || c == 46 || c == 101 || c == 69
+
+def dNumberCore (t : Tok) (l : Loc) (top : Level) (rest : List Level) (c : UInt8) (nl : NumLoc) : Act :=
+  if numAccepts t nl c then
+    .consume { t with pb := t.pb ++ [c], isDouble := numDouble t c } { l with num := some (numNext nl c) }
   else if !rest.isEmpty && c != 44 && c != 93 && c != 125 && c != 47 && c != 73 && c != 105 && !isWs c then
-    .err .number t { l with num := some nl }
+    .err .number t { l with num := none }
   else if t.pb.head? == some 45 && t.pb.length == 1 && (c == 105 || c == 73) then
-    .redo { setTop t { top with state := .inf } rest with stPos := 0 } { l with num := some nl }
+    .redo { setTop t { top with state := .inf } rest with stPos := 0 } { l with num := none }
   else
     let pb := if t.isDouble && !t.strict then trimNum t.pb else t.pb
     let t := { t with pb := pb }
     match classifyNum lc t pb with
-    | .ok v => .redo (finishWith t top rest v) { l with num := some nl }
-    | .error e => .err e t { l with num := some nl }
+    | .ok v => .redo (finishWith t top rest v) { l with num := none }
+    | .error e => .err e t { l with num := none }
+
+def dNumber (t : Tok) (l : Loc) (top : Level) (rest : List Level) (c : UInt8) : Act :=
+  dNumberCore lc t l top rest c (numFlags t l)
 
 def pushLevel (t : Tok) (l : Loc) (top : Level) (rest : List Level) (st : St) : Act :=
   -- tok->depth >= tok->max_depth - 1   (int arithmetic; depth = rest.length)
@@ -430,12 +480,6 @@ def dArray (t : Tok) (l : Loc) (top : Level) (rest : List Level) (c : UInt8) (af
     if afterSep && t.strict then .err .unexpected t l
     else .consume (setTop t { top with state := .eatws, saved := .finish } rest) l
   else pushLevel t l top rest .arrayAdd
-
-def dArrayAdd (t : Tok) (l : Loc) (top : Level) (rest : List Level) : Act :=
-  match top.current with
-  | .arr xs =>
-    .redo (setTop t { top with state := .eatws, saved := .arraySep, current := .arr (xs ++ [l.obj]) } rest) l
-  | _ => .fault "array_add: current is not an array"
 
 def dArraySep (t : Tok) (l : Loc) (top : Level) (rest : List Level) (c : UInt8) : Act :=
   if c == 93 then .consume (setTop t { top with state := .eatws, saved := .finish } rest) l
@@ -453,13 +497,6 @@ def dObjectFieldStart (t : Tok) (l : Loc) (top : Level) (rest : List Level) (c :
 def dObjectFieldEnd (t : Tok) (l : Loc) (top : Level) (rest : List Level) (c : UInt8) : Act :=
   if c == 58 then .consume (setTop t { top with state := .eatws, saved := .objectValue } rest) l
   else .err .keySep t l
-
-def dObjectValueAdd (t : Tok) (l : Loc) (top : Level) (rest : List Level) : Act :=
-  match top.current, top.name with
-  | .obj kvs, some k =>
-    .redo (setTop t { top with state := .eatws, saved := .objectSep, current := .obj (addOrReplace kvs k l.obj),
-                               name := none } rest) l
-  | _, _ => .fault "object_value_add: current is not an object or no field name"
 
 def dObjectSep (t : Tok) (l : Loc) (top : Level) (rest : List Level) (c : UInt8) : Act :=
   if c == 125 then .consume (setTop t { top with state := .eatws, saved := .finish } rest) l
@@ -489,14 +526,14 @@ def disp (t : Tok) (l : Loc) (c : UInt8) : Act :=
     | .number => dNumber lc t l top rest c
     | .array => dArray t l top rest c false
     | .arrayAfterSep => dArray t l top rest c true
-    | .arrayAdd => dArrayAdd t l top rest
+    | .arrayAdd => .fault "array_add on top of the stack without a completed child"
     | .arraySep => dArraySep t l top rest c
     | .objectFieldStart => dObjectFieldStart t l top rest c false
     | .objectFieldStartAfterSep => dObjectFieldStart t l top rest c true
     | .objectField => dObjectField t l top rest c
     | .objectFieldEnd => dObjectFieldEnd t l top rest c
     | .objectValue => pushLevel t l top rest .objectValueAdd
-    | .objectValueAdd => dObjectValueAdd t l top rest
+    | .objectValueAdd => .fault "object_value_add on top of the stack without a completed child"
     | .objectSep => dObjectSep t l top rest c
     | .inf => dInf t l top rest c
 
@@ -531,7 +568,7 @@ def validateUtf8 (c : UInt8) (nBytes : Nat) : Option Nat :=
 /-- how the loop ended -/
 inductive Stop where
   | endOfChunk          -- PEEK_CHAR at char_offset == len
-  | err (e : Err)       -- goto out with tok->err set
+  | err (e : PErr)      -- goto out with tok->err set
   | done                -- finish at depth 0
   | nul                 -- a NUL byte was consumed (`if (!c) break;` and the tight loops)
   | stuck               -- out of redo fuel (proved impossible)
@@ -546,20 +583,22 @@ structure LoopEnd where
   stop : Stop
   deriving Repr
 
+/-- PEEK_CHAR on an available byte: the UTF-8 validation step (none = invalid) -/
+def peek (t : Tok) (l : Loc) (b : UInt8) : Option Loc :=
+  if t.validateUtf8 then (validateUtf8 b l.nBytes).map (fun nb => { l with nBytes := nb }) else some l
+
 def run (lc : Libc) (t : Tok) (l : Loc) (c : UInt8) (off : Nat) : Bytes → LoopEnd
   | [] => ⟨t, l, c, off, .endOfChunk⟩
   | b :: bs =>
-    -- PEEK_CHAR
-    match (if t.validateUtf8 then validateUtf8 b l.nBytes else some l.nBytes) with
+    match peek t l b with
     | none => ⟨t, l, c, off, .err .utf8⟩
-    | some nb =>
-      let l := { l with nBytes := nb }
-      match feed lc t l b with
+    | some l1 =>
+      match feed lc t l1 b with
       | .consume t' l' => if b == 0 then ⟨t', l', b, off + 1, .nul⟩ else run lc t' l' b (off + 1) bs
       | .err e t' l' => ⟨t', l', b, off, .err e⟩
       | .done t' l' => ⟨t', l', b, off, .done⟩
       | .redo t' l' => ⟨t', l', b, off, .stuck⟩
-      | .fault w => ⟨t, l, b, off, .fault w⟩
+      | .fault w => ⟨t, l1, b, off, .fault w⟩
 
 /-- result of one json_tokener_parse_ex call -/
 structure Final where
@@ -572,28 +611,34 @@ structure Final where
   deriving Repr
 
 def topState (t : Tok) : St × St := match t.stack with | top :: _ => (top.state, top.saved) | [] => (.eatws, .start)
+def topCurrent (t : Tok) : JVal := match t.stack with | top :: _ => top.current | [] => .null
+
+/-- tok->err as the loop leaves it -/
+def loopErr (e : LoopEnd) : Err :=
+  match e.stop with
+  | .endOfChunk =>
+    if e.tok.stack.length == 1 && (topState e.tok).1 == .eatws && (topState e.tok).2 == .finish then .success
+    else .continue_
+  | .err x => x.toErr
+  | _ => .success           -- tok->err still holds the value the call started with
+
+/-- tok->err after the code at `out:` (the three overrides, last one wins) -/
+def finalErr (e : LoopEnd) : Err :=
+  let t := e.tok
+  let st := (topState t).1
+  let sv := (topState t).2
+  if e.c == 0 && st != .finish && sv != .finish then .eof
+  else if e.c != 0 && st == .finish && t.stack.length == 1 && t.strict && !t.allowTrailing then .unexpected
+  else if t.validateUtf8 && e.loc.nBytes != 0 then .utf8
+  else loopErr e
 
 def epilogue (e : LoopEnd) : Final :=
-  let t := e.tok
-  let depth0 := t.stack.length == 1
-  let (st, sv) := topState t
-  let err0 : Err := match e.stop with
-    | .endOfChunk => if depth0 && st == .eatws && sv == .finish then .success else .continue_
-    | .err x => x
-    | .done => .success
-    | .nul => .success          -- tok->err still holds its initial value
-    | .stuck => .success
-    | .fault _ => .success
-  let err1 := if t.validateUtf8 && e.loc.nBytes != 0 then Err.utf8 else err0
-  let err2 := if e.c != 0 && st == .finish && depth0 && t.strict && !t.allowTrailing then Err.unexpected else err1
-  let err3 := if e.c == 0 && st != .finish && sv != .finish then Err.eof else err2
   let stuck := match e.stop with | .stuck => true | _ => false
   let fault := match e.stop with | .fault w => some w | _ => none
-  if err3 == .success then
-    let v := match t.stack.getLast? with | some l0 => (match t.stack with | top :: _ => top.current | [] => l0.current) | none => JVal.null
-    -- reset levels depth … 0 (depth is 0 here)
-    ⟨.success, some v, e.offset, { t with stack := [freshLevel] }, stuck, fault⟩
-  else ⟨err3, none, e.offset, t, stuck, fault⟩
+  if finalErr e == .success then
+    -- return current; reset levels depth … 0 (depth is 0 on every success path)
+    ⟨.success, some (topCurrent e.tok), e.offset, { e.tok with stack := [freshLevel] }, stuck, fault⟩
+  else ⟨finalErr e, none, e.offset, e.tok, stuck, fault⟩
 
 /-- json_tokener_parse_ex(tok, data, len = |data|) -/
 def parseEx (lc : Libc) (t : Tok) (data : Bytes) : Final :=
